@@ -208,7 +208,7 @@ theorem unit_invariance_unitless (op : ℚ → ℚ → ℚ) (s1 s2 : USpec) (h1 
   -- the right operand as the operation sees it, before and after re-expressing
   have hs2 : ∀ t : USpec, t.vu = none → ∀ a : WUnit, (toWave a t).wave = t.wave.map (· * waveTo t.wu a) ∧ (toWave a t).value = t.value
       ∧ (toWave a t).wu = a ∧ (toWave a t).vu = none := by
-    intro t ht a; simp [toWave, ht]
+    intro t ht a; simp [toWave_eq, ht]
   obtain ⟨w1, v1, _, _⟩ := hs2 s1 h1 u
   set s2' := (if s2.wu = s1.wu then s2 else toWave s1.wu s2) with hs2'
   have hs2'w : s2'.wave = s2.wave.map (· * waveTo s2.wu s1.wu) ∧ s2'.value = s2.value := by
@@ -226,7 +226,7 @@ theorem unit_invariance_unitless (op : ℚ → ℚ → ℚ) (s1 s2 : USpec) (h1 
   rw [w1, v1, hwave2, (hs2 s2 h2 u).2.1, ← hs2'w.2, key]
   cases ufunc op ⟨s1.wave, s1.value⟩ ⟨s2'.wave, s2'.value⟩ m fill with
   | error e => rfl
-  | ok r => simp [Except.map, toWave, h1, (hs2 s1 h1 u).2.2.1, (hs2 s1 h1 u).2.2.2, scaleS]
+  | ok r => simp [Except.map, toWave_eq, h1, (hs2 s1 h1 u).2.2.1, (hs2 s1 h1 u).2.2.2, scaleS]
 
 /-- scalar and equal-length vector operands act element-wise on the unchanged wavelength grid -/
 theorem scalar_vector_elementwise (op : ℚ → ℚ → ℚ) (s : Spectrum) (c : ℚ) (v : List ℚ) (hv : v.length = s.value.length) :
@@ -243,7 +243,7 @@ theorem unit_handover_partial (op : ℚ → ℚ → ℚ) (s1 s2 : USpec) (m : Sa
     ufuncU op s1 s2 m fill = ufuncU op s1 (toWave s1.wu s2) m fill ∧
     ∀ r, ufuncU op s1 s2 m fill = .ok r → r.wu = s1.wu ∧ r.vu = s1.vu := by
   constructor
-  · have h2 : (toWave s1.wu s2).wu = s1.wu := by cases hv : s2.vu <;> simp [toWave, hv]
+  · have h2 : (toWave s1.wu s2).wu = s1.wu := by cases hv : s2.vu <;> simp [toWave_eq, hv]
     by_cases h : s2.wu = s1.wu
     · have : toWave s1.wu s2 = s2 := by rw [← h]; exact toWave_self s2
       rw [this]
